@@ -9,9 +9,12 @@ import (
 	"os"
 	"path/filepath"
 	"runtime/debug"
+	"strconv"
 	"strings"
 	"sync"
+	"time"
 
+	"verif/harness/gw"
 	"verif/harness/lib"
 )
 
@@ -181,6 +184,97 @@ func c05Detect(a lib.Args, r *c05Rig, res *lib.Result) error {
 	return nil
 }
 
+// c05CopyTagsProbe: CopyObject of a TAGGED source with the default tagging directive (COPY). The code
+// stores the source's tags on the destination BY NAME after PutObject has published it — outside
+// Model.Conc (whose writes carry every attribute on the temp file). The probe steers the one schedule
+// that shows what this does to the property: COPY runs up to and including its publication, a PUT
+// without tags replaces the key, COPY goes on; afterwards the key holds the PUT's body with the
+// COPY source's tags, for good.
+func c05CopyTagsProbe(a lib.Args, r *c05Rig, res *lib.Result) error {
+	r.seq++
+	key := fmt.Sprintf("k%06d", r.seq)
+	path := "/" + r.bucket + "/" + key
+	ini := c05Write{ID: 5, Len: 9, Attrs: []string{"m0"}}
+	src := c05Write{ID: 6, Len: 9, Attrs: []string{"m0", "tags"}} // 1 + 6%3 = 1 tag
+	put := c05Write{ID: 7, Len: 9, Attrs: []string{"m0"}}
+	in := map[string]interface{}{"mode": "steered", "pair": "copy-tags-probe", "strategy": r.strat,
+		"requests": []c05Req{{Kind: "C", W: src}, {Kind: "P", W: put}}, "schedule": "COPY up to its publication; PUT completely; COPY to its end; GET"}
+	srcPath := "/" + r.bucket + "/src-" + key
+	for _, q := range []gw.Req{{Method: "PUT", Path: path, Body: ini.body(), Headers: ini.headers()},
+		{Method: "PUT", Path: srcPath, Body: src.body(), Headers: src.headers()}} {
+		if rsp := r.do(r.free, q); rsp.Status != 200 {
+			return fmt.Errorf("copy-tags probe set-up: %d %s", rsp.Status, rsp.Body)
+		}
+	}
+	proj := &c05Proj{bucket: r.bucket, key: key}
+	rel := func(s *gw.Sys) bool { n, _ := proj.project(s); return n != "" }
+	done := make(chan struct{})
+	var crsp gw.Resp
+	go func() {
+		crsp = r.do(r.procs[0], gw.Req{Method: "PUT", Path: path, Headers: []gw.Header{{K: "x-amz-copy-source", V: srcPath[1:]}}})
+		close(done)
+	}()
+	var steps []string
+	published, finished := false, false
+	for !finished {
+		sys, fin, err := r.steppers[0].Next(done, rel, 8*time.Second)
+		if err != nil {
+			r.steppers[0].Cont()
+			<-done
+			res.Count("probe-err|"+r.strat, false, "probe:copy-tags:stepper-error")
+			return nil // the probe is best effort; the machinery's hiccups are not findings
+		}
+		if fin {
+			finished = true
+			break
+		}
+		n, cl := proj.project(sys)
+		steps = append(steps, n+":"+cl)
+		if !published && cl == "ok" && (n == "rename" || n == "linkat") {
+			published = true
+			// the key is COPY's now: a PUT without tags replaces it while COPY is held
+			if rsp := r.do(r.free, gw.Req{Method: "PUT", Path: path, Body: put.body(), Headers: put.headers()}); rsp.Status != 200 {
+				r.steppers[0].Cont()
+				<-done
+				return fmt.Errorf("copy-tags probe put: %d %s", rsp.Status, rsp.Body)
+			}
+		}
+		r.steppers[0].Cont()
+	}
+	writes := []c05Write{ini, src, put}
+	final := c05View(c05Req{Kind: "G"}, r.do(r.free, gw.Req{Method: "GET", Path: path}), writes, map[int]string{})
+	out, err := a.Driver.Ask([]string{fmt.Sprintf("conc judge G %s,%s,%s %s", ini.spec("P"), src.spec("P"), put.spec("P"), final)})
+	if err != nil {
+		return err
+	}
+	byName := false
+	for _, st := range steps {
+		if strings.Contains(st, "-by-name.") {
+			byName = true
+		}
+	}
+	res.Count("probe|"+r.strat, true, "probe:copy-tags:"+r.strat, fmt.Sprintf("probe:copy-tags:by-name-store=%v", byName), "probe:copy-tags:verdict="+strings.SplitN(out[0], "+", 2)[0])
+	if strings.HasPrefix(out[0], "bad:") {
+		res.Fail(lib.Failure{Kind: "property", Signature: "conc:copy-tags-by-name:" + strings.SplitN(strings.TrimPrefix(out[0], "bad:"), "+", 2)[0],
+			What:  "CopyObject (default tagging directive) stores the source's tags on the destination BY NAME after the publication: a PUT that replaced the key in between now carries the COPY's tags for good (" + out[0] + "); CopyObject answered " + strconv.Itoa(crsp.Status),
+			Input: in, Impl: final + " | COPY steps: " + strings.Join(steps, " "), Model: "outside Model.Conc (see not_modelled); an object's tags must be those of the write its body belongs to"})
+	}
+	return nil
+}
+
+func c05WithTags(attrs []string, on bool) []string {
+	var o []string
+	for _, a := range attrs {
+		if a != "tags" {
+			o = append(o, a)
+		}
+	}
+	if on {
+		o = append(o, "tags")
+	}
+	return o
+}
+
 func c05Interleaved(s string) bool {
 	// at least two switches between requests
 	sw := 0
@@ -247,6 +341,16 @@ func c05SteeredOn(a lib.Args, res *lib.Result, strat string, replay *c05Case) er
 		rig.close()
 		return err
 	}
+	if replay == nil || replay.Pair == "copy-tags-probe" {
+		if err := c05CopyTagsProbe(a, rig, res); err != nil {
+			rig.close()
+			return err
+		}
+		if replay != nil {
+			rig.close()
+			return nil
+		}
+	}
 	r := lib.NewRandStream(a.Seed, int64(51+len(strat)))
 	// ---- cases
 	var cases []c05Case
@@ -279,11 +383,14 @@ func c05SteeredOn(a lib.Args, res *lib.Result, strat string, replay *c05Case) er
 					}
 					ws := []c05Write{w1, w2}
 					wi := 0
-					for _, k := range pd.kinds {
+					for ki, k := range pd.kinds {
 						rq := c05Req{Kind: k}
 						if rq.isWrite() {
 							rq.W = ws[wi%2]
 							wi++
+							if pd.tagged != nil {
+								rq.W.Attrs = c05WithTags(rq.W.Attrs, pd.tagged[ki])
+							}
 						}
 						c.Reqs = append(c.Reqs, rq)
 					}
@@ -404,12 +511,23 @@ func c05SteeredOn(a lib.Args, res *lib.Result, strat string, replay *c05Case) er
 			}
 		}
 	}
+	for k := range judged {
+		j := &judged[k]
+		if strings.HasPrefix(j.obs.Final, "read(") {
+			lines = append(lines, fmt.Sprintf("conc judge G %s %s", j.c.writeSpecs(), j.obs.Final))
+			refs = append(refs, ref{k, -1, 0})
+		}
+	}
 	out, err = a.Driver.Ask(lines)
 	if err != nil {
 		return err
 	}
 	for n, rf := range refs {
-		judged[rf.k].verdict[rf.i] = out[n]
+		if rf.i < 0 {
+			judged[rf.k].final = out[n]
+		} else {
+			judged[rf.k].verdict[rf.i] = out[n]
+		}
 	}
 	lines = lines[:0]
 	for k := range judged {
